@@ -17,7 +17,7 @@ Proof.
   assert (Hd : d53 st2 = true) by (unfold d53; rewrite (li_dialect _ Hl); reflexivity).
   destruct z as [|p|p]; cbn [aint].
   - apply (PureEval_noncall _ _ _ _ st2); [reflexivity | | apply cells_ext_refl].
-    pose proof (Eval_num E2 false (q_int 0) st2) as H. unfold mknum in H. rewrite Hd in H. exact H.
+    pose proof (Eval_num E2 false (q_int 0%Z) st2) as H. unfold mknum in H. rewrite Hd in H. exact H.
   - apply (PureEval_noncall _ _ _ _ st2); [reflexivity | | apply cells_ext_refl].
     pose proof (Eval_num E2 false (q_int (Zpos p)) st2) as H. unfold mknum in H. rewrite Hd in H. exact H.
   - apply (PureEval_noncall _ _ _ _ st2); [reflexivity | | apply cells_ext_refl].
@@ -25,7 +25,7 @@ Proof.
     exists 1%nat. intros [|k] Hk; [lia|]. cbn [unop_apply]. unfold mknum. rewrite Hd. reflexivity.
 Qed.
 
-Lemma denotes_bool F E st b : denotes F E st (if b then ETrue else EFalse) (SV (Values.VBool b)).
+Lemma denotes_bool F E st (b : bool) : denotes F E st (if b then ETrue else EFalse) (SV (Values.VBool b)).
 Proof.
   intros E2 st2 _ _ _. exists (VBool b). split; [constructor|].
   apply (PureEval_noncall _ _ _ _ st2); [destruct b; reflexivity | | apply cells_ext_refl].
@@ -87,7 +87,7 @@ Proof.
       * eapply sget_not_V; [exact Hwf | apply not_fmt_var_add].
       * apply (g_add _ (li_genv _ Hl)).
       * reflexivity.
-    + apply EvalList_cons; [discriminate | exact Ha | apply EvalList_one; exact Hb].
+    + eapply EvalList_cons; [discriminate | exact Ha | apply EvalList_one; exact Hb].
     + exact Hc.
   - eapply cells_ext_trans; [exact Hx1|]. eapply cells_ext_trans; [exact Hx2|]. apply cells_ext_add_state.
 Qed.
@@ -116,17 +116,25 @@ Definition bexpr (op : Resolved.binop) (xa xb : expr) : expr :=
   end.
 
 Lemma agen_binop u l op c a b i :
-  binop_ir op c a b = Some i ->
-  agen_one u l i = aiis u l c (bexpr op (aexpand l a) (aexpand l b)) /\ simple_op i = true /\ ir_uses i = [a; b] /\ value_op op = true.
-Proof. destruct op; cbn [binop_ir]; intros H; inversion H; subst; repeat split; reflexivity. Qed.
+  value_op op = true -> binop_ir op c a b = Some i ->
+  agen_one u l i = aiis u l c (bexpr op (aexpand l a) (aexpand l b)) /\ simple_op i = true /\ ir_uses i = [a; b].
+Proof. destruct op; try discriminate; intros _; cbn [binop_ir]; intros H; inversion H; subst; repeat split; reflexivity. Qed.
+
+Lemma lift_res_state {A} w (r : Values.res A) s x s' : SyltSem.lift_res w r s = (x, s') -> s' = s.
+Proof. destruct r; cbn; intros H; inversion H; reflexivity. Qed.
 
 Lemma binop_val_state op a b s r s' : SyltSem.binop_val op a b s = (r, s') -> s' = s.
 Proof.
-  unfold SyltSem.binop_val, SyltSem.lift_res, SyltSem.bind, SyltSem.ret, SyltSem.stop.
+  unfold SyltSem.binop_val.
   destruct op; intros H;
-    repeat match type of H with
-           | context [match ?x with _ => _ end] => destruct x
-           end; inversion H; reflexivity.
+    try (apply lift_res_state in H; exact H);
+    try (cbn in H; inversion H; reflexivity);
+    unfold SyltSem.bind in H;
+    match type of H with
+    | context [SyltSem.lift_res ?w ?x ?s] =>
+        destruct (SyltSem.lift_res w x s) as [[v|o|c] s1] eqn:E; apply lift_res_state in E; subst;
+        cbn in H; inversion H; reflexivity
+    end.
 Qed.
 
 Lemma denotes_binop F E st op xa xb a b r s s' :
@@ -144,6 +152,73 @@ Proof.
   assert (Hx24 : cells_ext st2 st4) by (eapply cells_ext_trans; eassumption).
   assert (Hd : d53 st4 = true).
   { unfold d53. rewrite (li_dialect st4); [reflexivity|]. eapply cells_ext_linv; eassumption. }
-  (* equality works on every pair of values *)
-  destruct (Resolved.binop_eq_dec_eq op) as [Heq|Hne].
-Abort.
+  assert (Hpar : forall o lr, is_shortcut o = false ->
+             Ev (fun k => binop_apply k o la lb st4) (ROk lr st4) -> vrel (SV r) lr ->
+             exists lv, vrel (SV r) lv /\ PureEval E2 st2 (abin o xa xb) lv).
+  { intros o lr Ho Hev Hr. exists lr. split; [exact Hr|].
+    apply (PureEval_noncall _ _ _ _ st4); [reflexivity | | exact Hx24].
+    apply Eval_paren. eapply Eval_bin; eassumption. }
+  destruct op; try discriminate Hop; cbn [bexpr].
+  - (* == *)
+    cbn in Hv. inversion Hv; subst. apply (Hpar OEq (VBool (raw_eqb la lb))); [reflexivity | |].
+    + apply Binop_eq_prim. left. eapply vrel_not_table; eassumption.
+    + rewrite (vrel_raw_eqb _ _ _ _ Hva Hvb). constructor.
+  - (* != *)
+    cbn in Hv. inversion Hv; subst. apply (Hpar ONe (VBool (negb (raw_eqb la lb)))); [reflexivity | |].
+    + apply Binop_ne_prim. left. eapply vrel_not_table; eassumption.
+    + rewrite (vrel_raw_eqb _ _ _ _ Hva Hvb). constructor.
+  - (* > *)
+    inversion Hva; subst; inversion Hvb; subst; cbn in Hv; try discriminate Hv; inversion Hv; subst.
+    apply (Hpar OGt (VBool (q_ltb (q_int z0) (q_int z)))); [reflexivity | apply Binop_gt | constructor].
+  - (* >= *)
+    inversion Hva; subst; inversion Hvb; subst; cbn in Hv; try discriminate Hv; inversion Hv; subst.
+    apply (Hpar OGe (VBool (q_leb (q_int z0) (q_int z)))); [reflexivity | apply Binop_ge | constructor].
+  - (* < *)
+    inversion Hva; subst; inversion Hvb; subst; cbn in Hv; try discriminate Hv; inversion Hv; subst.
+    apply (Hpar OLt (VBool (q_ltb (q_int z) (q_int z0)))); [reflexivity | apply Binop_lt | constructor].
+  - (* <= *)
+    inversion Hva; subst; inversion Hvb; subst; cbn in Hv; try discriminate Hv; inversion Hv; subst.
+    apply (Hpar OLe (VBool (q_leb (q_int z) (q_int z0)))); [reflexivity | apply Binop_le | constructor].
+  - (* + *)
+    inversion Hva; subst; inversion Hvb; subst; cbn in Hv; try discriminate Hv; inversion Hv; subst.
+    exists (VNum false (q_int (z + z0))). split; [constructor|].
+    eapply PureEval_add; eassumption.
+  - (* - *)
+    inversion Hva; subst; inversion Hvb; subst; cbn in Hv; try discriminate Hv; inversion Hv; subst.
+    apply (Hpar OSub (VNum false (q_int (z - z0)))); [reflexivity | | constructor].
+    match goal with |- Ev _ ?r => replace r with (arith_num OSub false (q_int z) false (q_int z0) st4) end;
+      [apply Binop_arith; exact I | cbn [arith_num]; unfold mknum; rewrite Hd; reflexivity].
+  - (* * *)
+    inversion Hva; subst; inversion Hvb; subst; cbn in Hv; try discriminate Hv; inversion Hv; subst.
+    apply (Hpar OMul (VNum false (q_int (z * z0)))); [reflexivity | | constructor].
+    match goal with |- Ev _ ?r => replace r with (arith_num OMul false (q_int z) false (q_int z0) st4) end;
+      [apply Binop_arith; exact I | cbn [arith_num]; unfold mknum; rewrite Hd; reflexivity].
+Qed.
+
+(* ------------------------------------------------------------------ unary operators *)
+
+Lemma denotes_not F E st xa b :
+  denotes F E st xa (SV (Values.VBool b)) -> denotes F E st (EParen (EUn UNot xa)) (SV (Values.VBool (negb b))).
+Proof.
+  intros Ha E2 st2 Hf Hwf Hl.
+  destruct (Ha E2 st2 Hf Hwf Hl) as (la & Hva & st3 & Hea & _ & Hx3).
+  inversion Hva; subst.
+  exists (VBool (negb b)). split; [constructor|].
+  apply (PureEval_noncall _ _ _ _ st3); [reflexivity | | exact Hx3].
+  apply Eval_paren. eapply Eval_un; [exact Hea|].
+  exists 1%nat. intros [|k] Hk; [lia|]. destruct b; reflexivity.
+Qed.
+
+Lemma denotes_neg F E st xa z :
+  denotes F E st xa (SV (Values.VInt z)) -> denotes F E st (EParen (EUn UNeg xa)) (SV (Values.VInt (- z))).
+Proof.
+  intros Ha E2 st2 Hf Hwf Hl.
+  destruct (Ha E2 st2 Hf Hwf Hl) as (la & Hva & st3 & Hea & _ & Hx3).
+  inversion Hva; subst.
+  exists (VNum false (q_int (- z))). split; [constructor|].
+  apply (PureEval_noncall _ _ _ _ st3); [reflexivity | | exact Hx3].
+  apply Eval_paren. eapply Eval_un; [exact Hea|].
+  assert (Hd : d53 st3 = true).
+  { unfold d53. rewrite (li_dialect st3); [reflexivity|]. eapply cells_ext_linv; eassumption. }
+  exists 1%nat. intros [|k] Hk; [lia|]. cbn [unop_apply to_num]. unfold mknum. rewrite Hd. reflexivity.
+Qed.
